@@ -10,9 +10,10 @@ second of two adjacent escapes, and Python's `unicode-escape` codec for ASCII) a
 namespace TxV.Props.C04b
 open TxV.Unescape
 
-/-- the six ways `escChar` writes a character -/
+/-- the seven ways `escChar` writes a character -/
 theorem escChar_cases (c : Char) :
-    (c = '\\' ∧ escChar c = ['\\', '\\']) ∨ (c = '"' ∧ escChar c = ['\\', '"']) ∨ (c = '\n' ∧ escChar c = ['\\', 'n']) ∨
+    (c = '\\' ∧ escChar c = ['\\', '\\']) ∨ (c = '"' ∧ escChar c = ['\\', '"']) ∨
+    (c = '\'' ∧ escChar c = ['\\', '\'']) ∨ (c = '\n' ∧ escChar c = ['\\', 'n']) ∨
     (c = '\r' ∧ escChar c = ['\\', 'r']) ∨ (c = '\t' ∧ escChar c = ['\\', 't']) ∨
     (c ≠ '\\' ∧ c ≠ '"' ∧ c ≠ '\n' ∧ c ≠ '\r' ∧ c ≠ '\t' ∧ (c.toNat < 32 ∨ c.toNat = 127) ∧
       escChar c = ['\\', octDigit (c.toNat / 64), octDigit (c.toNat / 8), octDigit c.toNat]) ∨
@@ -22,19 +23,21 @@ theorem escChar_cases (c : Char) :
   · exact Or.inl ⟨h1, by simp [h1]⟩
   by_cases h2 : c = '"'
   · exact Or.inr (Or.inl ⟨h2, by simp [h2]⟩)
+  by_cases h2a : c = '\''
+  · exact Or.inr (Or.inr (Or.inl ⟨h2a, by simp [h2a]⟩))
   by_cases h3 : c = '\n'
-  · exact Or.inr (Or.inr (Or.inl ⟨h3, by simp [h3]⟩))
+  · exact Or.inr (Or.inr (Or.inr (Or.inl ⟨h3, by simp [h3]⟩)))
   by_cases h4 : c = '\r'
-  · exact Or.inr (Or.inr (Or.inr (Or.inl ⟨h4, by simp [h4]⟩)))
+  · exact Or.inr (Or.inr (Or.inr (Or.inr (Or.inl ⟨h4, by simp [h4]⟩))))
   by_cases h5 : c = '\t'
-  · exact Or.inr (Or.inr (Or.inr (Or.inr (Or.inl ⟨h5, by simp [h5]⟩))))
+  · exact Or.inr (Or.inr (Or.inr (Or.inr (Or.inr (Or.inl ⟨h5, by simp [h5]⟩)))))
   by_cases h6 : (c.toNat < 32 ∨ c.toNat = 127)
-  · refine Or.inr (Or.inr (Or.inr (Or.inr (Or.inr (Or.inl ⟨h1, h2, h3, h4, h5, h6, ?_⟩)))))
+  · refine Or.inr (Or.inr (Or.inr (Or.inr (Or.inr (Or.inr (Or.inl ⟨h1, h2, h3, h4, h5, h6, ?_⟩))))))
     have : (decide (c.toNat < 32) || decide (c.toNat = 127)) = true := by simpa using h6
-    simp [h1, h2, h3, h4, h5, this]
-  · refine Or.inr (Or.inr (Or.inr (Or.inr (Or.inr (Or.inr ⟨h1, h2, h6, ?_⟩)))))
+    simp [h1, h2, h2a, h3, h4, h5, this]
+  · refine Or.inr (Or.inr (Or.inr (Or.inr (Or.inr (Or.inr (Or.inr ⟨h1, h2, h6, ?_⟩))))))
     have : (decide (c.toNat < 32) || decide (c.toNat = 127)) = false := by simpa using h6
-    simp [h1, h2, h3, h4, h5, this]
+    simp [h1, h2, h2a, h3, h4, h5, this]
 
 theorem octDigit_props (n : Nat) :
     isOct (octDigit n) = true ∧ octVal (octDigit n) = n % 8 ∧ octDigit n ≠ '\\' ∧ octDigit n ≠ '"' ∧ octDigit n ≠ '\n' := by
@@ -71,6 +74,10 @@ theorem py_backslash (r : Text) : pyUnescape ('\\' :: '\\' :: r) = (pyUnescape r
   simp
 
 theorem py_quote (r : Text) : pyUnescape ('\\' :: '"' :: r) = (pyUnescape r).map ('"' :: ·) := by
+  conv => lhs; rw [pyUnescape.eq_def]
+  simp
+
+theorem py_apos (r : Text) : pyUnescape ('\\' :: '\'' :: r) = (pyUnescape r).map ('\'' :: ·) := by
   conv => lhs; rw [pyUnescape.eq_def]
   simp
 
@@ -117,7 +124,7 @@ theorem roundtrip_body : ∀ (p : Text), (∀ c ∈ p, c.toNat < 128) → ∀ a 
     have hc : c.toNat < 128 := hall c List.mem_cons_self
     have hsplit : torEscape (c :: rest) = escChar c ++ torEscape rest := by simp [torEscape]
     rw [hsplit]
-    rcases escChar_cases c with ⟨h, he⟩ | ⟨h, he⟩ | ⟨h, he⟩ | ⟨h, he⟩ | ⟨h, he⟩ | ⟨n1, n2, n3, n4, n5, hctl, he⟩ | ⟨n1, n2, hpl, he⟩
+    rcases escChar_cases c with ⟨h, he⟩ | ⟨h, he⟩ | ⟨h, he⟩ | ⟨h, he⟩ | ⟨h, he⟩ | ⟨h, he⟩ | ⟨n1, n2, n3, n4, n5, hctl, he⟩ | ⟨n1, n2, hpl, he⟩
     · rw [he]; subst h
       show pyUnescape (dropBackslashes a ('\\' :: '\\' :: torEscape rest)) = _
       rw [drop_pair, py_backslash, ih hrest a]; rfl
@@ -133,6 +140,18 @@ theorem roundtrip_body : ∀ (p : Text), (∀ c ∈ p, c.toNat < 128) → ∀ a 
         rw [this]
         simp only [Bool.false_eq_true, if_false]
         rw [py_quote, ih hrest true]; rfl
+    · rw [he]; subst h
+      show pyUnescape (dropBackslashes a ('\\' :: '\'' :: torEscape rest)) = _
+      rw [drop_escape _ _ _ (by decide)]
+      cases a with
+      | true =>
+        have : (true && !keepsBackslash '\'') = true := by decide
+        rw [if_pos this, py_plain _ _ (by decide), ih hrest false]; rfl
+      | false =>
+        have : (false && !keepsBackslash '\'') = false := by decide
+        rw [this]
+        simp only [Bool.false_eq_true, if_false]
+        rw [py_apos, ih hrest true]; rfl
     · rw [he]; subst h
       show pyUnescape (dropBackslashes a ('\\' :: 'n' :: torEscape rest)) = _
       rw [drop_escape _ _ _ (by decide)]
@@ -180,7 +199,8 @@ theorem bodyOk_torEscape : ∀ (p : Text), bodyOk (torEscape p) = true := by
   | cons c rest ih =>
     have hsplit : torEscape (c :: rest) = escChar c ++ torEscape rest := by simp [torEscape]
     rw [hsplit]
-    rcases escChar_cases c with ⟨h, he⟩ | ⟨h, he⟩ | ⟨h, he⟩ | ⟨h, he⟩ | ⟨h, he⟩ | ⟨n1, n2, n3, n4, n5, hctl, he⟩ | ⟨n1, n2, hpl, he⟩
+    rcases escChar_cases c with ⟨h, he⟩ | ⟨h, he⟩ | ⟨h, he⟩ | ⟨h, he⟩ | ⟨h, he⟩ | ⟨h, he⟩ | ⟨n1, n2, n3, n4, n5, hctl, he⟩ | ⟨n1, n2, hpl, he⟩
+    · rw [he]; simp [bodyOk, ih]
     · rw [he]; simp [bodyOk, ih]
     · rw [he]; simp [bodyOk, ih]
     · rw [he]; simp [bodyOk, ih]
